@@ -205,3 +205,26 @@ def ensure_chi_path():
     root = os.path.realpath(os.path.dirname(os.path.dirname(chi.__file__)))
     if root != os.path.realpath(CHI_ROOT):
         raise HarnessError('chi imported from %s, expected %s' % (root, CHI_ROOT))
+
+
+def array_forms(x):
+    """The same numbers in other array forms a caller may hold: a read-only array (e.g. out of a pandas / xarray
+    object), a non-contiguous view (every second element of a larger buffer), a Fortran-ordered array (2-D), a
+    float32-free plain list. Returns [(label, object)]."""
+    import numpy as np
+    x = np.asarray(x, dtype=float)
+    out = []
+    ro = x.copy()
+    ro.setflags(write=False)
+    out.append(('a read-only array', ro))
+    if x.ndim == 1 and x.size:
+        buf = np.full(2 * x.size, -777.0)
+        buf[::2] = x
+        out.append(('a non-contiguous view', buf[::2]))
+    if x.ndim == 2:
+        out.append(('a Fortran-ordered array', np.asfortranarray(x)))
+        buf = np.full((x.shape[0], 2 * x.shape[1]), -777.0)
+        buf[:, ::2] = x
+        out.append(('a non-contiguous view', buf[:, ::2]))
+    return out
+
